@@ -108,6 +108,17 @@ func newExecutor(lookup func(reqID string) *script) *kmipserver.BatchExecutor {
 		case oTyped:
 			return nil, kmipserver.ErrItemNotFound
 		case oPlain:
+			if pk%2 == 1 {
+				// a handler that hands back what it has (a partly filled payload) TOGETHER with its error: the item failed
+				switch req.(type) {
+				case *payloads.ActivateRequestPayload:
+					return &payloads.ActivateResponsePayload{UniqueIdentifier: id}, errors.New("plain failure, with a payload")
+				case *payloads.DestroyRequestPayload:
+					return &payloads.DestroyResponsePayload{UniqueIdentifier: id}, errors.New("plain failure, with a payload")
+				default:
+					return &payloads.ArchiveResponsePayload{UniqueIdentifier: id}, errors.New("plain failure, with a payload")
+				}
+			}
 			return nil, errors.New("plain failure")
 		case oPanic:
 			switch pk % 6 {
@@ -137,6 +148,9 @@ func newExecutor(lookup func(reqID string) *script) *kmipserver.BatchExecutor {
 	ex.Route(kmip.OperationActivate, kmipserver.HandleFunc(func(ctx context.Context, req *payloads.ActivateRequestPayload) (*payloads.ActivateResponsePayload, error) {
 		out, err := logic(ctx, req)
 		if err != nil {
+			if out != nil {
+				return out.(*payloads.ActivateResponsePayload), err
+			}
 			return nil, err
 		}
 		return out.(*payloads.ActivateResponsePayload), nil
